@@ -258,6 +258,12 @@ class CallsMixin:
             cur = as_bcat(recv)
             if meth == "append":
                 return bcat(cur.a[0] + (T("u8", args[0]),)), NONE
+            if meth == "extend" and args[0].k == "optlist":
+                for c_, x_ in args[0].a[0]:
+                    cur = bcat_concat(cur, as_bcat(gamma(c_, bcat((T("u8", x_),)), bcat())))
+                return cur, NONE
+            if meth == "extend" and args[0].k in ("list", "tuple"):
+                return bcat(cur.a[0] + tuple(T("u8", x_) for x_ in args[0].a[0])), NONE
             if meth == "extend":
                 return bcat_concat(cur, as_bcat(args[0])), NONE
             if meth == "clear":
@@ -267,6 +273,14 @@ class CallsMixin:
                 return T("list", recv.a[0] + (args[0],), ty=recv.ty), NONE
             if meth == "extend" and args[0].k in ("list", "tuple"):
                 return T("list", recv.a[0] + args[0].a[0], ty=recv.ty), NONE
+            if meth == "extend" and args[0].k == "optlist":
+                return T("optlist", tuple((TRUE, x) for x in recv.a[0]) + args[0].a[0], ty=recv.ty), NONE
+        if recv.k == "optlist":
+            if meth == "append":
+                return T("optlist", recv.a[0] + ((TRUE, args[0]),), ty=recv.ty), NONE
+            if meth == "extend" and args[0].k in ("list", "tuple", "optlist"):
+                more = args[0].a[0] if args[0].k == "optlist" else tuple((TRUE, x) for x in args[0].a[0])
+                return T("optlist", recv.a[0] + more, ty=recv.ty), NONE
             if meth == "clear":
                 return T("list", (), ty=recv.ty), NONE
         if meth in ("append", "extend", "insert", "appendleft"):
@@ -377,10 +391,12 @@ class CallsMixin:
         if name == "update" and recv.k == "crcobj":
             return NONE
         if name == "join" and ((recv.k == "const" and recv.a[0] in (b"", bytearray())) or (recv.k == "bcat" and not recv.a[0])) and args \
-                and args[0].k in ("tuple", "list"):
-            # b"".join(parts): the concatenation of the parts
+                and args[0].k in ("tuple", "list", "optlist"):
+            # b"".join(parts): the concatenation of the parts (a part present under a condition contributes nothing otherwise)
             out = bcat()
             for part in args[0].a[0]:
+                if args[0].k == "optlist":
+                    part = part[1] if is_const(part[0], True) else gamma(part[0], as_bcat(part[1]), bcat())
                 out = bcat_concat(out, as_bcat(part))
             return out
         if name == "to_bytes" and recv.ty not in ("bytes", "bytearray", "str"):
@@ -462,6 +478,14 @@ class CallsMixin:
         cenv.facts = list(env.facts)
         cenv.pc = []
         cenv.vars = bound
+        # Arguments are passed by reference: a parameter the callee never rebinds still names the caller's object at
+        # every exit, so a value that changed (x.append(..), x.clear(), ..) is the caller's object mutated.  The
+        # value at each exit travels in the heap under a reserved key and is joined like any other heap cell.
+        self.call_seq += 1
+        call_id = self.call_seq
+        byref = self._byref_params(f, bound, node, len(args))
+        passed = {p_: bound[p_] for p_ in byref}
+        self.byref_stack.append((call_id, tuple(byref)))
         self.depth += 1
         self.where.append(f.short)
         self.fn_stack.append(f.qual)
@@ -469,16 +493,61 @@ class CallsMixin:
         try:
             self.block(f.node.body, cenv, f.module, f, exits)
             if not cenv.dead:
-                exits.append((list(cenv.pc), NONE, cenv.heap, list(cenv.facts)))
+                exits.append((list(cenv.pc), NONE, self.heap_with_byref(cenv), list(cenv.facts)))
         finally:
             self.depth -= 1
             self.where.pop()
             self.fn_stack.pop()
+            self.byref_stack.pop()
         if not exits:
             env.dead = True
             env.heap = cenv.heap
             return NONE
-        return self.merge_exits(exits, env)
+        val = self.merge_exits(exits, env)
+        if byref:
+            env.heap = dict(env.heap)
+            for p_, expr in byref.items():
+                nv = env.heap.pop(("$byref", call_id, p_), None)
+                if nv is None or nv == passed[p_] or nv.k == "undef":
+                    continue
+                if isinstance(expr, ast.Name):
+                    env.vars[expr.id] = nv
+                else:
+                    self.unsupported(f"argument `{ast.unparse(expr)[:40]}` is mutated by {f.short}", node)
+        return val
+
+    def _byref_params(self, f, bound, node, nargs):
+        """{parameter: caller's argument expression} for parameters the callee never rebinds and whose argument is an
+        lvalue of the caller (a plain name is written back; anything else that gets mutated is reported as unmodelled)"""
+        if node is None or not isinstance(node, ast.Call):
+            return {}
+        cache = self.__dict__.setdefault("_rebound_cache", {})
+        if f.qual not in cache:
+            cache[f.qual] = {n_.id for n_ in ast.walk(f.node) if isinstance(n_, ast.Name) and isinstance(n_.ctx, (ast.Store, ast.Del))}
+        rebound = cache[f.qual]
+        if any(isinstance(a_, ast.Starred) for a_ in node.args) or any(k_.arg is None for k_ in node.keywords):
+            return {}
+        a = f.node.args
+        names = [x.arg for x in a.posonlyargs + a.args]
+        off = nargs - len(node.args)         # bound receiver (self / cls) ahead of the written arguments
+        out = {}
+        if off in (0, 1):
+            for i, expr in enumerate(node.args):
+                if i + off < len(names):
+                    out[names[i + off]] = expr
+        for k_ in node.keywords:
+            out[k_.arg] = k_.value
+        return {p_: e_ for p_, e_ in out.items() if p_ in bound and p_ not in rebound and isinstance(e_, (ast.Name, ast.Attribute, ast.Subscript))}
+
+    def heap_with_byref(self, env):
+        if not self.byref_stack or not self.byref_stack[-1][1]:
+            return env.heap
+        call_id, names = self.byref_stack[-1]
+        h = dict(env.heap)
+        for p_ in names:
+            if p_ in env.vars:
+                h[("$byref", call_id, p_)] = env.vars[p_]
+        return h
 
     def merge_exits(self, exits, env):
         """join the states of all normal exits of an inlined callee into the caller's env"""
@@ -726,9 +795,11 @@ class CallsMixin:
             return self.do_isinstance(args[0], args[1], env, node)
         if name == "divmod" and len(args) == 2:
             return T("tuple", (binop("//", args[0], args[1]), binop("%", args[0], args[1])))
-        if name == "sum" and len(args) >= 1 and args[0].k in ("tuple", "list"):
+        if name == "sum" and len(args) >= 1 and args[0].k in ("tuple", "list", "optlist"):
             tot = args[1] if len(args) > 1 else C(0)
             for x_ in args[0].a[0]:
+                if args[0].k == "optlist":
+                    x_ = gamma(x_[0], x_[1], C(0))
                 tot = binop("+", tot, x_)
             return tot
         if name in ("max", "min"):
